@@ -1,4 +1,5 @@
 import LettreVerif.Proofs.Client
+import LettreVerif.Proofs.TransportOnce
 /-!
 # C05 — A send reports success iff the server accepted the message; never twice
 
@@ -7,7 +8,7 @@ everything written so far, most recent first.  All statements hold for every scr
 every server behaviour.
 -/
 namespace LV.C05
-open LV LV.Client LV.Response
+open LV LV.Client LV.Response LV.Transport
 
 /-- Everything a send can do, for every server behaviour: it is refused by the client before
     anything is written; or it writes MAIL, one RCPT per recipient in order, DATA and the
@@ -69,6 +70,35 @@ theorem error_carries_code_and_text (c : Conn) (h : c.shut = false) :
     (∀ cd t, c.read.2 = .error (.permanent cd t) →
         ∃ r, (readResp c.buf).1 = .reply r ∧ r.code = cd ∧ r.lines.flatten = t ∧ classify cd = .permanent) :=
   read_classify c h
+
+/-- **A send never retries by itself (transport level).** `Pool.dataCommands` counts the `DATA` commands written on all
+    connections the transport ever opened. One `send_raw` — check-out of a pooled connection with its NOOP probes, closing
+    the ones that fail the probe, possibly opening a new connection, the transaction, the return of the connection —
+    adds at most one, whatever the peer does on any of the connections: the message is handed over at most once, there
+    is no second attempt on another connection. -/
+theorem send_raw_hands_over_at_most_once (p : Pool) (from? : Option Bytes) (to : List Bytes) (msg : Bytes) :
+    (p.sendRaw from? to msg).1.dataCommands ≤ p.dataCommands + 1 :=
+  sendRaw_data_le p from? to msg
+
+/-- … and a `send_raw` that reports success has handed it over exactly once. -/
+theorem successful_send_raw_hands_over_once (p : Pool) (from? : Option Bytes) (to : List Bytes) (msg : Bytes) (r : Resp)
+    (hok : (p.sendRaw from? to msg).2 = .ok r) :
+    (p.sendRaw from? to msg).1.dataCommands = p.dataCommands + 1 :=
+  sendRaw_data_ok p from? to msg r hok
+
+/-- non-vacuity: the pooled connection dies at the end of data of the second send (the peer closes without a reply);
+    a further connection would be served, yet the failed send is not repeated there: two DATA commands for two sends. -/
+example :
+    let h : List Step := [⟨str "220 hi\r\n", false⟩, ⟨str "250 srv\r\n", false⟩, ⟨str "250 ok\r\n", false⟩,
+      ⟨str "250 ok\r\n", false⟩, ⟨str "354 go\r\n", false⟩, ⟨str "250 queued\r\n", false⟩]
+    let dying : List Step := h ++ [⟨str "250 ok\r\n", false⟩, ⟨str "250 ok\r\n", false⟩, ⟨str "250 ok\r\n", false⟩,
+      ⟨str "354 go\r\n", false⟩, ⟨[], true⟩]
+    let p0 : Pool := { conns := [], idle := [], scripts := [dying, h], maxSize := 1, hello := str "c" }
+    let p1 := (p0.sendRaw none [str "x@y.z"] (str "m")).1
+    let p2 := (p1.sendRaw none [str "x@y.z"] (str "m")).1
+    p1.dataCommands = 1 ∧ p2.dataCommands = 2 ∧ p2.conns.length = 1 ∧
+      (match (p1.sendRaw none [str "x@y.z"] (str "m")).2 with | .error .bad => true | _ => false) = true := by
+  decide
 
 /-- non-vacuity: against a server that accepts everything, a send succeeds and writes exactly
     EHLO, MAIL, RCPT, DATA, content; against one that refuses the recipient it fails after RCPT
